@@ -1100,6 +1100,13 @@ pub fn main(a: Args) -> i32 {
             files.push(("CLIPATCH", "cli_truncated".into(), b[..r.below(b.len() as u64) as usize].to_vec()));
             files.push(("CLIPATCH", "cli_random_edit".into(), random_edit(&b, &mut r)));
         }
+        // a delta that passes its own bounds check (forged basis_size) but copies past the end of the real basis file,
+        // or that is honest about a basis longer than the file it is applied to: an error, never a hang
+        for (off, len, bsz) in [(c.cli_src.len() as u64 - 10, 5000u32, 1u64 << 40), (c.cli_src.len() as u64 + 7, 64, 1u64 << 40), (0, 300_000, 300_000), (c.cli_src.len() as u64, 1, c.cli_src.len() as u64 + 1)] {
+            let mut d = Delta::new(512, len as u64, bsz);
+            d.ops.push(DeltaOp::Copy { offset: off, len });
+            files.push(("CLIPATCH", "cli_copy_past_eof".into(), bincode::serialize(&d).unwrap()));
+        }
         files.push(("CLIDELTA", "cli_empty".into(), vec![]));
         files.push(("CLIPATCH", "cli_empty".into(), vec![]));
         for _ in 0..6 {
